@@ -1,4 +1,5 @@
 import TM.Mirror
+import Props.C02
 import Props.C03
 import Props.C10
 import Props.C11
@@ -59,6 +60,16 @@ Property theorems:
   kept), `mirror_follows_run`, `attach_nostraddle`, **`attach_then_follow`** (fresh outer
   terminal, `Attach`, then any list of tokens), and sessions with interleaved cursor callbacks:
   `cursorOp_spec`, `session_invariant`, `session_cursor`.
+* Part 9, the unconditional capstone (`import Props.C02`): `InnerOK'` (the C02 invariant with
+  `contSty` on every row — a `C02.RowInv` instance, `rowInv_cs` — and the cell-wise invariant
+  `TA`: valid styles, one printable scalar value per character cell) implies `InnerOK`
+  (`InnerOK'.toInnerOK`) and is preserved by every token the tokeniser can produce
+  (`innerOK_apply`, `TokOK`, `next_tokOK`: UTF-8 decode-then-encode is the identity, an invalid
+  byte gives U+FFFD with its encoding), holds initially (`innerOK_init`), hence
+  **`mirror_follows_stream`**: for every byte string, size, policies, region, and width function
+  with `cw 32 ≤ 1`, `cw 0xFFFD ≤ 1`, `C02.WidthOK pol cw`: a mirror attached on a fresh outer
+  terminal and driven by the model terminal's announcements shows the final active screen inside
+  the region.
 
 Hypotheses the proofs needed, all explicit:
 * `cw 32 ≤ 1` — the blank that stands for a cell of a cut wide character is the character U+0020
@@ -3257,6 +3268,1058 @@ theorem session_cursor (cw : Nat → Nat) (R : MRegion) (σ : Sess) (x y : Nat) 
   · have : σ'.o = _ := d2 hv
     rw [this]; rfl
 
+/-! ## Part 9 — `InnerOK` is an invariant of the model terminal: the unconditional capstone -/
+
+/-- text `t` of width `w` is the encoding of ONE printable scalar value of that width -/
+def TxtOK (cw : Nat → Nat) (t : Bytes) (w : Nat) : Prop :=
+  ∃ cp, validScalar cp ∧ 32 ≤ cp ∧ cp ≠ 127 ∧ t = encodeRune cp ∧ w = max (cw cp) 1
+
+/-- the cell-wise part of `RowOK`: a valid style, and a character cell holds one printable
+    scalar value with its width -/
+def CellOK (cw : Nat → Nat) (c : Cell) : Prop :=
+  Style.valid c.sty ∧ ∀ t w, c.g = .ch t w → TxtOK cw t w
+
+/-- what a token must satisfy: a text token carries the encoding of its (printable, valid) code
+    point — what the tokeniser produces (`next_tokOK`); every other token is arbitrary -/
+def TokOK : Tok → Prop
+  | .text stored cp => validScalar cp ∧ 32 ≤ cp ∧ cp ≠ 127 ∧ stored = encodeRune cp
+  | _ => True
+
+namespace Lemmas
+
+theorem cellOK_blank {cw : Nat → Nat} (hsp : cw 32 ≤ 1) {st : Style} (hv : Style.valid st) :
+    CellOK cw (blank st) :=
+  ⟨hv, fun t w h => by
+    simp only [blank, Glyph.ch.injEq] at h
+    exact ⟨32, by decide, by decide, by decide, by rw [← h.1, encodeRune_32], by omega⟩⟩
+
+theorem cellOK_charCells {cw : Nat → Nat} {t : Bytes} {w : Nat} {st : Style} (hv : Style.valid st)
+    (ht : TxtOK cw t w) : ∀ c ∈ charCells t w st, CellOK cw c := by
+  intro c hc
+  simp only [charCells, List.mem_cons, List.mem_replicate] at hc
+  rcases hc with rfl | ⟨_, rfl⟩
+  · exact ⟨hv, fun t' w' h => by cases h; exact ht⟩
+  · exact ⟨hv, fun t' w' h => by cases h⟩
+
+theorem txtOK_replacement {cw : Nat → Nat} (hrep : cw 0xFFFD ≤ 1) : TxtOK cw replacementChar 1 :=
+  ⟨0xFFFD, by decide, by decide, by decide, by decide, by omega⟩
+
+/-! ### where the cells of a written row come from -/
+
+theorem mem_blankRange {r : Row} {a n : Nat} {st : Style} {c : Cell} (h : c ∈ blankRange r a n st) :
+    c ∈ r ∨ c = blank st := by
+  unfold blankRange at h
+  rw [List.mem_mapIdx] at h
+  obtain ⟨i, hi, rfl⟩ := h
+  split
+  · exact Or.inr rfl
+  · exact Or.inl (List.getElem_mem _)
+
+theorem mem_blankCharAt {r : Row} {x : Nat} {st : Style} {c : Cell} (h : c ∈ blankCharAt r x st) :
+    c ∈ r ∨ c = blank st := by
+  unfold blankCharAt at h
+  simp only at h
+  split at h
+  · exact Or.inl h
+  · exact mem_blankRange h
+
+theorem mem_blankStraddlers {r : Row} {a b : Nat} {st : Style} {c : Cell}
+    (h : c ∈ blankStraddlers r a b st) : c ∈ r ∨ c = blank st := by
+  rw [TM.C03.Lemmas.blankStraddlers_eq] at h
+  rcases TM.C03.Lemmas.fixAt_mem _ _ _ _ h with h | h
+  · exact TM.C03.Lemmas.fixAt_mem _ _ _ _ h
+  · exact Or.inr h
+
+theorem mem_setRange' {r : Row} {a : Nat} {cells : List Cell} {c : Cell}
+    (h : c ∈ setRange r a cells) : c ∈ r ∨ c ∈ cells := by
+  unfold setRange at h
+  rw [List.mem_mapIdx] at h
+  obtain ⟨i, hi, rfl⟩ := h
+  split
+  · next hc =>
+    right
+    rw [List.getD_eq_getElem?_getD, List.getElem?_eq_getElem (by omega)]
+    exact List.getElem_mem _
+  · exact Or.inl (List.getElem_mem _)
+
+theorem mem_put {r : Row} {x w : Nat} {t : Bytes} {st : Style} {c : Cell}
+    (h : c ∈ r.put x t w st) : c ∈ r ∨ c = blank st ∨ c ∈ charCells t w st := by
+  unfold Row.put at h
+  rcases mem_setRange' h with h | h
+  · rcases mem_blankStraddlers h with h | h
+    · exact Or.inl h
+    · exact Or.inr (Or.inl h)
+  · exact Or.inr (Or.inr h)
+
+theorem mem_erase {r : Row} {a b : Nat} {st : Style} {c : Cell} (h : c ∈ r.erase a b st) :
+    c ∈ r ∨ c = blank st := by
+  unfold Row.erase at h
+  simp only at h
+  split at h
+  · exact Or.inl h
+  · rcases mem_blankRange h with h | h
+    · exact mem_blankStraddlers h
+    · exact Or.inr h
+
+theorem mem_dch {r : Row} {x n : Nat} {st : Style} {c : Cell} (h : c ∈ r.dch x n st) :
+    c ∈ r ∨ c = blank st := by
+  unfold Row.dch at h
+  simp only at h
+  split at h
+  · exact Or.inl h
+  · simp only [List.mem_append, List.mem_replicate] at h
+    rcases h with (h | h) | h
+    · exact mem_blankStraddlers (List.mem_of_mem_take h)
+    · exact mem_blankStraddlers (List.mem_of_mem_drop h)
+    · exact Or.inr h.2
+
+theorem mem_fixTail {r : Row} {st : Style} {c : Cell} (h : c ∈ fixTail r st) :
+    c ∈ r ∨ c = blank st := by
+  unfold fixTail at h
+  split at h
+  · split at h
+    · simp only [List.mem_append, List.mem_singleton] at h
+      rcases h with h | h
+      · rw [List.dropLast_eq_take] at h; exact Or.inl (List.mem_of_mem_take h)
+      · exact Or.inr h
+    · exact Or.inl h
+  · exact Or.inl h
+
+theorem mem_putKeep {r : Row} {x w : Nat} {t : Bytes} {st : Style} {c : Cell}
+    (h : c ∈ r.putKeep x t w st) : c ∈ r ∨ c = blank st ∨ c ∈ charCells t w st := by
+  unfold Row.putKeep at h
+  simp only at h
+  rcases mem_fixTail h with h | h
+  · have h := List.mem_of_mem_take h
+    have h1 : ∀ c, c ∈ (if contAt r (x + w) then blankCharAt r (x + w) st else r) →
+        c ∈ r ∨ c = blank st := by
+      intro c hc
+      split at hc
+      · exact mem_blankCharAt hc
+      · exact Or.inl hc
+    simp only [List.mem_append] at h
+    rcases h with (h | h) | h
+    · rcases h1 c (List.mem_of_mem_take h) with h | h
+      · exact Or.inl h
+      · exact Or.inr (Or.inl h)
+    · exact Or.inr (Or.inr h)
+    · rcases h1 c (List.mem_of_mem_drop h) with h | h
+      · exact Or.inl h
+      · exact Or.inr (Or.inl h)
+  · exact Or.inr (Or.inl h)
+
+end Lemmas
+open Lemmas
+
+/-! ### screens -/
+
+/-- the cell-wise invariant of a screen: every cell `CellOK`, the current style valid -/
+def CA (cw : Nat → Nat) (s : Scr) : Prop :=
+  (∀ r ∈ s.grid, ∀ c ∈ r, CellOK cw c) ∧ Style.valid s.sty
+
+namespace Lemmas
+section
+variable {cw : Nat → Nat} (hsp : cw 32 ≤ 1)
+
+theorem ca_of_eq {s s' : Scr} (hg : s'.grid = s.grid) (hs : s'.sty = s.sty) (h : CA cw s) : CA cw s' :=
+  ⟨by rw [hg]; exact h.1, by rw [hs]; exact h.2⟩
+
+include hsp in
+theorem ca_blankRow {s : Scr} (h : CA cw s) (w : Nat) : ∀ c ∈ blankRow w s.sty, CellOK cw c := by
+  intro c hc
+  simp only [blankRow, List.mem_replicate] at hc
+  rw [hc.2]; exact cellOK_blank hsp h.2
+
+theorem ca_row {s : Scr} (h : CA cw s) (y : Nat) : ∀ c ∈ s.row y, CellOK cw c := by
+  intro c hc
+  unfold Scr.row at hc
+  rw [List.getD_eq_getElem?_getD] at hc
+  cases e : s.grid[y]? with
+  | none => rw [e] at hc; simp at hc
+  | some r => rw [e] at hc; exact h.1 r (List.mem_of_getElem? e) c hc
+
+theorem ca_setRow {s : Scr} (h : CA cw s) (y : Nat) {r' : Row} (hr : ∀ c ∈ r', CellOK cw c) :
+    CA cw (s.setRow y r') := by
+  refine ⟨?_, h.2⟩
+  intro r hm
+  rcases List.mem_or_eq_of_mem_set hm with hm | rfl
+  · exact h.1 r hm
+  · exact hr
+
+include hsp in
+theorem ca_scroll {s : Scr} (h : CA cw s) (a b : Nat) (d : Int) : CA cw (s.scroll a b d) := by
+  unfold Scr.scroll
+  simp only
+  split
+  · exact h
+  · refine ⟨?_, h.2⟩
+    intro r hm
+    simp only [List.mem_append] at hm
+    have hb : ∀ r, r ∈ List.replicate (min d.natAbs (b - a + 1)) (blankRow s.w s.sty) →
+        ∀ c ∈ r, CellOK cw c := by
+      intro r hr
+      rw [(List.mem_replicate.1 hr).2]; exact ca_blankRow hsp h _
+    rcases hm with (hm | hm) | hm
+    · exact h.1 r (List.mem_of_mem_take hm)
+    · split at hm
+      · simp only [List.mem_append] at hm
+        rcases hm with hm | hm
+        · exact hb r hm
+        · exact h.1 r (List.mem_of_mem_drop (List.mem_of_mem_take (List.mem_of_mem_take hm)))
+      · simp only [List.mem_append] at hm
+        rcases hm with hm | hm
+        · exact h.1 r (List.mem_of_mem_drop (List.mem_of_mem_take (List.mem_of_mem_drop hm)))
+        · exact hb r hm
+    · exact h.1 r (List.mem_of_mem_drop hm)
+
+include hsp in
+theorem ca_lineDown {s : Scr} (h : CA cw s) : CA cw s.lineDown := by
+  unfold Scr.lineDown
+  split
+  · exact ca_scroll hsp h _ _ _
+  · split
+    · exact ca_of_eq rfl rfl h
+    · exact h
+
+include hsp in
+theorem ca_lineUp {s : Scr} (h : CA cw s) : CA cw s.lineUp := by
+  unfold Scr.lineUp
+  split
+  · exact ca_scroll hsp h _ _ _
+  · split
+    · exact ca_of_eq rfl rfl h
+    · exact h
+
+include hsp in
+theorem ca_eraseRegion {s : Scr} (h : CA cw s) (x1 y1 x2 y2 : Nat) :
+    CA cw (s.eraseRegion x1 y1 x2 y2) := by
+  refine ⟨?_, h.2⟩
+  intro r hm
+  unfold Scr.eraseRegion at hm
+  simp only at hm
+  rw [List.mem_mapIdx] at hm
+  obtain ⟨y, hy, rfl⟩ := hm
+  have hold := h.1 _ (List.getElem_mem hy)
+  split
+  · intro c hc
+    rcases mem_erase hc with hc | hc
+    · exact hold c hc
+    · rw [hc]; exact cellOK_blank hsp h.2
+  · exact hold
+
+include hsp in
+theorem ca_eraseRegionI {s : Scr} (h : CA cw s) (x1 y1 x2 y2 : Int) :
+    CA cw (s.eraseRegionI x1 y1 x2 y2) := by
+  unfold Scr.eraseRegionI; exact ca_eraseRegion hsp h _ _ _ _
+
+include hsp in
+theorem ca_dch {s : Scr} (h : CA cw s) (n : Nat) : CA cw (s.dch n) := by
+  unfold Scr.dch
+  apply ca_setRow h
+  intro c hc
+  rcases mem_dch hc with hc | hc
+  · exact ca_row h _ c hc
+  · rw [hc]; exact cellOK_blank hsp h.2
+
+theorem ca_setMargins {s : Scr} (h : CA cw s) (a b : Int) : CA cw (s.setMargins a b) := by
+  unfold Scr.setMargins
+  split
+  · exact h
+  · simp only
+    split
+    · exact h
+    · exact ca_of_eq rfl rfl h
+
+include hsp in
+theorem ca_putPre {s : Scr} (h : CA cw s) (w : Nat) : CA cw (TM.C02.Lemmas.putPre s w) := by
+  unfold TM.C02.Lemmas.putPre
+  split
+  · split
+    · exact ca_lineDown hsp (ca_of_eq (s := s) rfl rfl h)
+    · exact ca_of_eq rfl rfl h
+  · exact h
+
+include hsp in
+theorem ca_putFinish {s : Scr} (h : CA cw s) (x : Nat) : CA cw (TM.C02.Lemmas.putFinish s x) := by
+  unfold TM.C02.Lemmas.putFinish
+  split
+  · exact ca_of_eq rfl rfl h
+  · split
+    · exact ca_lineDown hsp (ca_of_eq (s := s) rfl rfl h)
+    · exact ca_of_eq rfl rfl h
+
+include hsp in
+/-- a printable character keeps the cell-wise invariant (both policies, with or without
+    autowrap, too-wide characters replaced by U+FFFD) -/
+theorem ca_put (hrep : cw 0xFFFD ≤ 1) (pol : WidePolicy) {s : Scr} (h : CA cw s) (text0 : Bytes)
+    (w0 : Nat) (ht : TxtOK cw text0 (max w0 1)) : CA cw (Scr.put pol s text0 w0) := by
+  rw [TM.C02.Lemmas.put_eq]
+  simp only
+  have htxt : TxtOK cw (if max w0 1 > s.w then replacementChar else text0)
+      (if max w0 1 > s.w then 1 else max w0 1) := by
+    split
+    · exact txtOK_replacement hrep
+    · exact ht
+  generalize (if max w0 1 > s.w then 1 else max w0 1) = w at htxt
+  generalize (if max w0 1 > s.w then replacementChar else text0) = text at htxt
+  have h1 := ca_putPre hsp h w
+  generalize TM.C02.Lemmas.putPre s w = s1 at h1
+  apply ca_putFinish hsp
+  apply ca_setRow h1
+  intro c hc
+  have hres : c ∈ s1.row s1.cy ∨ c = blank s1.sty ∨ c ∈ charCells text w s1.sty := by
+    split at hc
+    · exact mem_putKeep hc
+    · exact mem_put hc
+  rcases hres with hc | hc | hc
+  · exact ca_row h1 _ c hc
+  · rw [hc]; exact cellOK_blank hsp h1.2
+  · exact cellOK_charCells h1.2 htxt c hc
+
+end
+end Lemmas
+open Lemmas
+
+/-! ### terminals: every token keeps the cell-wise invariant -/
+
+/-- both buffers satisfy the cell-wise invariant -/
+def TA (cw : Nat → Nat) (t : Term) : Prop := CA cw t.main ∧ CA cw t.alt
+
+namespace Lemmas
+section
+variable {cw : Nat → Nat} (hsp : cw 32 ≤ 1)
+
+theorem ta_scr {t : Term} (h : TA cw t) : CA cw t.scr := by
+  unfold Term.scr; split
+  · exact h.2
+  · exact h.1
+
+theorem ta_setScr {t : Term} (h : TA cw t) {s' : Scr} (hs : CA cw s') : TA cw (t.setScr s') := by
+  unfold Term.setScr; split
+  · exact ⟨h.1, hs⟩
+  · exact ⟨hs, h.2⟩
+
+theorem ta_withScr {t : Term} (h : TA cw t) {s' : Scr} (hs : CA cw s') : TA cw (t.withScr s').1 :=
+  ta_setScr h hs
+
+theorem ta_ite {c : Prop} [Decidable c] {a b : Term × List Ev}
+    (ha : c → TA cw a.1) (hb : ¬ c → TA cw b.1) : TA cw (if c then a else b).1 := by
+  split
+  · exact ha ‹_›
+  · exact hb ‹_›
+
+theorem ta_setKbd {t : Term} (h : TA cw t) (k : Kbd) : TA cw (t.setKbd k) := by
+  unfold Term.setKbd; split <;> exact h
+
+theorem ta_switchScreen {t : Term} (h : TA cw t) (v : Bool) : TA cw (t.switchScreen v).1 := by
+  unfold Term.switchScreen; split <;> exact h
+
+theorem ca_setCursor {s : Scr} (h : CA cw s) (x y : Int) : CA cw (s.setCursor x y) :=
+  ca_of_eq rfl rfl h
+theorem ca_saveCursor {s : Scr} (h : CA cw s) : CA cw s.saveCursor := ca_of_eq rfl rfl h
+theorem ca_restoreCursor {s : Scr} (h : CA cw s) : CA cw s.restoreCursor := ca_of_eq rfl rfl h
+theorem ca_cx {s : Scr} (h : CA cw s) (x : Nat) : CA cw { s with cx := x } := ca_of_eq rfl rfl h
+theorem ca_wrap {s : Scr} (h : CA cw s) (v : Bool) : CA cw { s with wrap := v } := ca_of_eq rfl rfl h
+theorem ca_sty {s : Scr} (h : CA cw s) {st : Style} (hv : Style.valid st) :
+    CA cw { s with sty := st } := ⟨h.1, hv⟩
+
+theorem ta_decMode {t : Term} (h : TA cw t) (p : Int) (v : Bool) : TA cw (t.decMode p v).1 := by
+  unfold Term.decMode
+  repeat' first
+    | exact h
+    | exact ta_switchScreen h _
+    | exact ta_setScr h (ca_wrap (ta_scr h) _)
+    | (apply ta_ite <;> intro _)
+
+theorem ta_decModes (v : Bool) (ps : List Int) : ∀ {t : Term}, TA cw t → TA cw (t.decModes v ps).1 := by
+  induction ps with
+  | nil => intro t h; exact h
+  | cons p ps ih =>
+    intro t h
+    simp only [Term.decModes]
+    exact ih (ta_decMode h p v)
+
+section Dispatch
+attribute [local irreducible] Scr.eraseRegionI Scr.scroll Scr.setCursor Scr.dch Scr.setMargins
+  Scr.saveCursor Scr.restoreCursor Scr.lineDown Scr.lineUp Scr.put Term.setScr
+
+include hsp in
+theorem ta_csiPlain {t : Term} (h : TA cw t) (ps : List Int) (fin : UInt8) :
+    TA cw (t.csiPlain ps fin).1 := by
+  have hs := ta_scr h
+  unfold Term.csiPlain
+  simp only
+  repeat' first
+    | (apply ta_ite <;> intro _)
+    | exact h
+    | exact ta_withScr h (ca_setCursor hs _ _)
+    | exact ta_withScr h (ca_restoreCursor hs)
+    | exact ta_setScr h (ca_sty hs (applySGR_valid hs.2 _))
+    | exact ta_setScr h (ca_saveCursor hs)
+    | exact ta_setScr h (ca_eraseRegionI hsp hs _ _ _ _)
+    | exact ta_setScr h (ca_eraseRegionI hsp (ca_eraseRegionI hsp hs _ _ _ _) _ _ _ _)
+    | exact ta_setScr h (ca_scroll hsp hs _ _ _)
+    | exact ta_setScr h (ca_dch hsp hs _)
+    | exact ta_setScr h (ca_setMargins hs _ _)
+    | exact ta_setScr h (ca_setCursor (ca_eraseRegionI hsp hs _ _ _ _) _ _)
+
+include hsp in
+theorem ta_csi {t : Term} (h : TA cw t) (pfx : UInt8) (ps : List Int) (fin : UInt8) :
+    TA cw (t.csi pfx ps fin).1 := by
+  unfold Term.csi
+  repeat' first
+    | exact ta_csiPlain hsp h _ _
+    | exact ta_decModes _ _ h
+    | exact h
+    | exact ta_setKbd h _
+    | (apply ta_ite <;> intro _)
+    | split
+
+include hsp in
+/-- **every token keeps the cell-wise invariant** (valid styles, one printable scalar value per
+    character cell with its width) on both buffers -/
+theorem ta_apply (hrep : cw 0xFFFD ≤ 1) {t : Term} (h : TA cw t) (tok : Tok) (htok : TokOK tok) :
+    TA cw (t.apply cw tok).1 := by
+  have hs := ta_scr h
+  cases tok with
+  | text stored cp =>
+    simp only [Term.apply]
+    obtain ⟨a1, a2, a3, a4⟩ := htok
+    exact ta_setScr h (ca_put hsp hrep t.pol hs stored (cw cp) ⟨cp, a1, a2, a3, a4, rfl⟩)
+  | ctl b =>
+    simp only [Term.apply]
+    repeat' first
+      | (apply ta_ite <;> intro _)
+      | exact h
+      | exact ta_withScr h (ca_cx hs _)
+      | exact ta_withScr h (ca_setCursor hs _ _)
+      | exact ta_withScr h (ca_lineDown hsp (ca_cx hs _))
+      | exact ta_withScr h (ca_lineDown hsp hs)
+  | esc inter fin =>
+    simp only [Term.apply]
+    repeat' first
+      | (apply ta_ite <;> intro _)
+      | exact h
+      | exact ta_withScr h (ca_lineDown hsp hs)
+      | exact ta_withScr h (ca_lineUp hsp hs)
+  | csi pfx ps clean fin =>
+    simp only [Term.apply]
+    split
+    · exact ta_csi hsp h _ _ _
+    · exact h
+  | osc num payload wf =>
+    simp only [Term.apply]
+    repeat' first
+      | (apply ta_ite <;> intro _)
+      | exact h
+  | dcs => exact h
+
+end Dispatch
+end
+end Lemmas
+open Lemmas
+
+/-! ### continuation cells carry the style of the cell before them: a `C02.RowInv` -/
+
+/-- `RowOK.contSty` -/
+def CS (r : Row) : Prop := ∀ i st, r[i + 1]? = some ⟨.cont, st⟩ → ∃ g, r[i]? = some ⟨g, st⟩
+
+namespace Lemmas
+
+theorem cs_blankRange {r : Row} (h : CS r) (a n : Nat) (st : Style) (hend : contAt r (a + n) = false) :
+    CS (blankRange r a n st) := by
+  intro i st' hi
+  have hil : i + 1 < r.length := by
+    have := TM.C03.Lemmas.getElem?_lt hi; rwa [TM.C03.Lemmas.length_blankRange] at this
+  rw [TM.C03.Lemmas.getElem?_blankRange hil] at hi
+  split at hi
+  · simp [blank] at hi
+  · next hout =>
+    obtain ⟨g, hg⟩ := h i st' hi
+    rw [TM.C03.Lemmas.getElem?_blankRange (by omega)]
+    split
+    · next hin =>
+      exfalso
+      have : i + 1 = a + n := by omega
+      rw [this] at hi
+      rw [contAt_cont hi] at hend; cases hend
+    · exact ⟨g, hg⟩
+
+theorem cs_fixAt {r : Row} (hwf : rowWF r = true) (h : CS r) (c : Nat) (st : Style) :
+    CS (TM.C03.Lemmas.fixAt r c st) := by
+  cases hc : contAt r c with
+  | false => rw [TM.C03.Lemmas.fixAt_of_not_cont hc]; exact h
+  | true =>
+    rw [TM.C03.Lemmas.fixAt_of_cont hc]
+    obtain ⟨t, w, s, hch, _, _, _, hw⟩ := TM.C03.Lemmas.wf_head hwf (TM.C03.Lemmas.contAt_lt hc)
+    obtain ⟨_, _, _, hend⟩ := TM.C03.Lemmas.wf_ch hwf hch
+    rw [hw]
+    exact cs_blankRange h _ _ _ hend
+
+theorem cs_blankStraddlers {r : Row} (hwf : rowWF r = true) (h : CS r) (a b : Nat) (st : Style) :
+    CS (blankStraddlers r a b st) := by
+  rw [TM.C03.Lemmas.blankStraddlers_eq]
+  exact cs_fixAt (TM.C03.Lemmas.fixAt_wf hwf a st) (cs_fixAt hwf h a st) b st
+
+theorem cs_setRange {r : Row} (h : CS r) (x : Nat) (t : Bytes) (w : Nat) (st : Style) (hw : 1 ≤ w)
+    (hend : contAt r (x + w) = false) : CS (setRange r x (charCells t w st)) := by
+  intro i st' hi
+  have hil : i + 1 < r.length := by
+    have := TM.C03.Lemmas.getElem?_lt hi; rwa [TM.C03.Lemmas.length_setRange] at this
+  rw [TM.C03.Lemmas.getElem?_setRange hil, length_charCells _ _ _ hw] at hi
+  rw [TM.C03.Lemmas.getElem?_setRange (by omega), length_charCells _ _ _ hw]
+  split at hi
+  · next hin =>
+    rw [getElem?_charCells _ _ _ _ (by omega)] at hi
+    split at hi
+    · simp at hi
+    · next hne =>
+      simp only [Option.some.injEq, Cell.mk.injEq, true_and] at hi
+      subst hi
+      rw [if_pos (by omega), getElem?_charCells _ _ _ _ (by omega)]
+      split <;> exact ⟨_, rfl⟩
+  · next hout =>
+    obtain ⟨g, hg⟩ := h i st' hi
+    split
+    · next hin =>
+      exfalso
+      have : i + 1 = x + w := by omega
+      rw [this] at hi
+      rw [contAt_cont hi] at hend; cases hend
+    · exact ⟨g, hg⟩
+
+theorem cs_put {r : Row} (hwf : rowWF r = true) (h : CS r) (x : Nat) (t : Bytes) (w : Nat)
+    (st : Style) (hw : 1 ≤ w) : CS (r.put x t w st) := by
+  unfold Row.put
+  exact cs_setRange (cs_blankStraddlers hwf h _ _ _) x t w st hw
+    (TM.C03.Lemmas.contAt_blankStraddlers_right hwf _ _ _)
+
+theorem cs_erase {r : Row} (hwf : rowWF r = true) (h : CS r) (a b : Nat) (st : Style) :
+    CS (r.erase a b st) := by
+  unfold Row.erase
+  simp only
+  split
+  · exact h
+  · next hab =>
+    apply cs_blankRange (cs_blankStraddlers hwf h _ _ _)
+    rw [show a + (min b r.length - a) = min b r.length by omega]
+    exact TM.C03.Lemmas.contAt_blankStraddlers_right hwf _ _ _
+
+theorem cs_take {r : Row} (h : CS r) (n : Nat) : CS (r.take n) := by
+  intro i st hi
+  rw [List.getElem?_take] at hi
+  split at hi
+  · obtain ⟨g, hg⟩ := h i st hi
+    exact ⟨g, by rw [List.getElem?_take, if_pos (by omega)]; exact hg⟩
+  · cases hi
+
+theorem cs_drop {r : Row} (h : CS r) (n : Nat) : CS (r.drop n) := by
+  intro i st hi
+  rw [List.getElem?_drop] at hi ⊢
+  exact h (n + i) st hi
+
+theorem cs_append {a b : Row} (ha : CS a) (hb : CS b) (h0 : contAt b 0 = false) : CS (a ++ b) := by
+  intro i st hi
+  by_cases h1 : i + 1 < a.length
+  · rw [List.getElem?_append_left h1] at hi
+    rw [List.getElem?_append_left (by omega)]
+    exact ha i st hi
+  · rw [List.getElem?_append_right (by omega)] at hi
+    by_cases h2 : i + 1 = a.length
+    · exfalso
+      rw [h2, Nat.sub_self] at hi
+      rw [contAt_cont hi] at h0; cases h0
+    · rw [List.getElem?_append_right (by omega)]
+      rw [show i + 1 - a.length = (i - a.length) + 1 by omega] at hi
+      exact hb _ st hi
+
+theorem cs_blanks (n : Nat) (st : Style) : CS (List.replicate n (blank st)) := by
+  intro i st' hi
+  rw [List.getElem?_replicate] at hi
+  split at hi
+  · simp [blank] at hi
+  · cases hi
+
+theorem cs_charCells (t : Bytes) (w : Nat) (st : Style) : CS (charCells t w st) := by
+  intro i st' hi
+  unfold charCells at hi ⊢
+  rw [List.getElem?_cons_succ, List.getElem?_replicate] at hi
+  split at hi
+  · simp only [Option.some.injEq, Cell.mk.injEq, true_and] at hi
+    subst hi
+    cases i with
+    | zero => exact ⟨_, rfl⟩
+    | succ i =>
+      rw [List.getElem?_cons_succ, List.getElem?_replicate, if_pos (by omega)]
+      exact ⟨_, rfl⟩
+  · cases hi
+
+theorem contAt_blanks0 (n : Nat) (st : Style) : contAt (List.replicate n (blank st)) 0 = false := by
+  unfold contAt
+  rw [List.getElem?_replicate]
+  split <;> simp_all [blank]
+
+theorem cs_dch {r : Row} (hwf : rowWF r = true) (h : CS r) (x n : Nat) (st : Style) :
+    CS (r.dch x n st) := by
+  unfold Row.dch
+  simp only
+  split
+  · exact h
+  · have h1 := cs_blankStraddlers hwf h x (x + min n (r.length - x)) st
+    apply cs_append
+    · apply cs_append (cs_take h1 _) (cs_drop h1 _)
+      rw [TM.C03.Lemmas.contAt_drop, Nat.add_zero]
+      exact TM.C03.Lemmas.contAt_blankStraddlers_right hwf _ _ _
+    · exact cs_blanks _ _
+    · exact contAt_blanks0 _ _
+
+theorem cs_fixTail {r : Row} (h : CS r) (st : Style) : CS (fixTail r st) := by
+  unfold fixTail
+  split
+  · split
+    · apply cs_append
+      · rw [List.dropLast_eq_take]; exact cs_take h _
+      · intro i st' hi; simp at hi
+      · unfold contAt; simp [blank]
+    · exact h
+  · exact h
+
+theorem contAt_charCells0 (t : Bytes) (w : Nat) (st : Style) : contAt (charCells t w st) 0 = false := by
+  unfold contAt charCells; simp
+
+theorem cs_putKeep {r : Row} (hwf : rowWF r = true) (h : CS r) (x : Nat) (t : Bytes) (w : Nat)
+    (st : Style) : CS (r.putKeep x t w st) := by
+  unfold Row.putKeep
+  simp only
+  apply cs_fixTail
+  apply cs_take
+  have h1 : CS (TM.C03.Lemmas.fixAt r (x + w) st) := cs_fixAt hwf h _ _
+  have h2 : contAt (TM.C03.Lemmas.fixAt r (x + w) st) (x + w) = false :=
+    TM.C03.Lemmas.contAt_fixAt_self hwf _ _
+  show CS ((TM.C03.Lemmas.fixAt r (x + w) st).take _ ++ charCells t w st ++
+    (TM.C03.Lemmas.fixAt r (x + w) st).drop (x + w))
+  apply cs_append
+  · exact cs_append (cs_take h1 _) (cs_charCells t w st) (contAt_charCells0 t w st)
+  · exact cs_drop h1 _
+  · rw [TM.C03.Lemmas.contAt_drop, Nat.add_zero]; exact h2
+
+theorem cs_fitRow {r : Row} (hwf : rowWF r = true) (h : CS r) (w : Nat) (st : Style) :
+    CS (fitRow r w st) := by
+  unfold fitRow
+  split
+  · show CS ((TM.C03.Lemmas.fixAt r w st).take w)
+    exact cs_take (cs_fixAt hwf h _ _) _
+  · exact cs_append h (cs_blanks _ _) (contAt_blanks0 _ _)
+
+/-- well-formed rows (widths ≤ 2 under the span policy) whose continuation cells carry the style
+    of the cell before them: preserved by every row operation, for every style and text -/
+theorem rowInv_cs (pol : WidePolicy) :
+    TM.C02.Lemmas.RowInv pol (TM.C02.Lemmas.Bof pol)
+      (fun r => TM.C02.Lemmas.okRow (TM.C02.Lemmas.Bof pol) r ∧ CS r) where
+  one := (TM.C02.Lemmas.rowInv_Bof pol).one
+  blank := fun w st => ⟨(TM.C02.Lemmas.rowInv_Bof pol).blank w st, cs_blanks w st⟩
+  erase := fun h a b st => ⟨(TM.C02.Lemmas.rowInv_Bof pol).erase h.1 a b st, cs_erase h.1.1 h.2 a b st⟩
+  dch := fun h x n st => ⟨(TM.C02.Lemmas.rowInv_Bof pol).dch h.1 x n st, cs_dch h.1.1 h.2 x n st⟩
+  put := fun h t st hw hxw hB =>
+    ⟨(TM.C02.Lemmas.rowInv_Bof pol).put h.1 t st hw hxw hB, cs_put h.1.1 h.2 _ t _ st hw⟩
+  putKeep := fun hp _ _ _ h t st hc hw hxw hB => by
+    obtain ⟨a, b⟩ := (TM.C02.Lemmas.rowInv_Bof pol).putKeep hp h.1 t st hc hw hxw hB
+    exact ⟨⟨a, cs_putKeep h.1.1 h.2 _ t _ st⟩, b⟩
+  fit := fun h w st => ⟨(TM.C02.Lemmas.rowInv_Bof pol).fit h.1 w st, cs_fitRow h.1.1 h.2 w st⟩
+
+end Lemmas
+open Lemmas
+
+/-! ### the inductive invariant of the inner terminal -/
+
+/-- the invariant of the model terminal that implies `InnerOK` and is preserved by every token:
+    the C02 invariant (geometry, well-formed rows, widths ≤ 2 under the span policy) with
+    `contSty` on every row of both buffers, the cell-wise invariant `TA` (valid styles — also the
+    current ones —, one printable scalar value per character cell), the size within range -/
+structure InnerOK' (cw : Nat → Nat) (t : Term) : Prop where
+  rows : TM.C02.Lemmas.TOk (fun r => TM.C02.Lemmas.okRow (TM.C02.Lemmas.Bof t.pol) r ∧ CS r) t
+  cells : TA cw t
+  wmax : t.main.w ≤ paramMax
+  hmax : t.main.h ≤ paramMax
+
+namespace Lemmas
+
+theorem tok_mono {P Q : Row → Prop} {t : Term} (h : TM.C02.Lemmas.TOk P t) (hpq : ∀ r, P r → Q r) :
+    TM.C02.Lemmas.TOk Q t :=
+  ⟨⟨h.1.1, fun r hr => hpq r (h.1.2 r hr)⟩, ⟨h.2.1.1, fun r hr => hpq r (h.2.1.2 r hr)⟩, h.2.2⟩
+
+end Lemmas
+open Lemmas
+
+theorem InnerOK'.wf {cw : Nat → Nat} {t : Term} (h : InnerOK' cw t) : t.wf :=
+  (TM.C02.Lemmas.wf_iff t).2 (tok_mono h.rows (fun _ hr => hr.1))
+
+/-- `InnerOK'` implies `InnerOK` -/
+theorem InnerOK'.toInnerOK {cw : Nat → Nat} {t : Term} (h : InnerOK' cw t) : InnerOK cw t := by
+  obtain ⟨hs, hw, hh⟩ := TM.C02.Lemmas.scr_ok h.rows
+  have hinv := TM.C02.wf_inv h.wf
+  refine ⟨hinv.1, hinv.2, h.rows.2.2, ?_, by rw [hw]; exact h.wmax, by rw [hh]; exact h.hmax⟩
+  intro y hy
+  have hm := TM.C02.Lemmas.row_mem hs hy
+  have hr := hs.2 _ hm
+  have hc := (ta_scr h.cells).1 _ hm
+  exact ⟨hr.1.1, hr.2, fun c hcm => (hc c hcm).1, fun c hcm t' w' hg => (hc c hcm).2 t' w' hg⟩
+
+/-- **`InnerOK'` is preserved by every token the tokeniser can produce**, for every width function
+    that gives the space and U+FFFD at most one cell (and, under the span policy, no character
+    more than two: `C02.WidthOK`, without which `Scr.inv` itself is not preserved). Tokens are
+    rune-mode tokens (`Scr.merge`, the grapheme-mode writer, is not reachable from `Term.apply`). -/
+theorem innerOK_apply (cw : Nat → Nat) (t : Term) (tok : Tok) (h : InnerOK' cw t)
+    (htok : TokOK tok) (hcw : WidthOK t.pol cw) (hsp : cw 32 ≤ 1) (hrep : cw 0xFFFD ≤ 1) :
+    InnerOK' cw (Term.apply cw t tok).1 ∧ (Term.apply cw t tok).1.pol = t.pol := by
+  obtain ⟨g1, g2, g3, g4, _⟩ := TM.C02.Lemmas.good_apply (rowInv_cs t.pol) cw
+    (fun cp hp => by have := hcw hp cp; omega) h.rows tok
+  refine ⟨⟨by rw [g4]; exact g1, ta_apply hsp hrep h.cells tok htok, by rw [g2]; exact h.wmax,
+    by rw [g3]; exact h.hmax⟩, g4⟩
+
+/-- a fresh terminal satisfies `InnerOK'` -/
+theorem innerOK_init (cw : Nat → Nat) (pol : WidePolicy) (w h : Nat) (hw : 1 ≤ w) (hh : 1 ≤ h)
+    (hW : w ≤ paramMax) (hH : h ≤ paramMax) (hsp : cw 32 ≤ 1) : InnerOK' cw (Term.init pol w h) := by
+  have hca : CA cw (Scr.init w h) := by
+    refine ⟨?_, valid_default⟩
+    intro r hr c hc
+    simp only [Scr.init, List.mem_replicate] at hr
+    rw [hr.2] at hc
+    simp only [blankRow, List.mem_replicate] at hc
+    rw [hc.2]; exact cellOK_blank hsp valid_default
+  exact ⟨⟨TM.C02.Lemmas.sok_init (rowInv_cs pol) w h hw hh,
+    TM.C02.Lemmas.sok_init (rowInv_cs pol) w h hw hh, rfl, rfl⟩, ⟨hca, hca⟩, hW, hH⟩
+
+/-- along any list of `TokOK` tokens -/
+theorem innerAlong_of (cw : Nat → Nat) (hsp : cw 32 ≤ 1) (hrep : cw 0xFFFD ≤ 1) :
+    ∀ (toks : List Tok) (t : Term), InnerOK' cw t → WidthOK t.pol cw → (∀ tok ∈ toks, TokOK tok) →
+    InnerAlong cw t toks := by
+  intro toks
+  induction toks with
+  | nil => intro t h _ _; exact h.toInnerOK
+  | cons tok toks ih =>
+    intro t h hcw htoks
+    obtain ⟨h', hp⟩ := innerOK_apply cw t tok h (htoks tok (by simp)) hcw hsp hrep
+    exact ⟨h.toInnerOK, ih _ h' (by rw [hp]; exact hcw) (fun tk htk => htoks tk (by simp [htk]))⟩
+
+/-! ### the tokeniser produces `TokOK` tokens (UTF-8: decode then encode gives the bytes back) -/
+
+namespace Lemmas
+
+theorem ofNat_of_toNat (b : UInt8) (n : Nat) (h : n = b.toNat) : UInt8.ofNat n = b := by
+  subst h; exact UInt8.ofNat_toNat
+
+theorem enc1 (b0 : UInt8) (h : b0.toNat < 0x80) : encodeRune b0.toNat = [b0] := by
+  unfold encodeRune
+  simp only
+  rw [if_pos h, ofNat_of_toNat b0 _ rfl]
+
+theorem enc2 (b0 b1 : UInt8) (h0 : 0xC2 ≤ b0.toNat ∧ b0.toNat < 0xE0)
+    (h1 : 0x80 ≤ b1.toNat ∧ b1.toNat ≤ 0xBF) :
+    encodeRune ((b0.toNat % 32) * 64 + b1.toNat % 64) = [b0, b1] ∧
+      0x80 ≤ (b0.toNat % 32) * 64 + b1.toNat % 64 ∧ (b0.toNat % 32) * 64 + b1.toNat % 64 < 0x800 := by
+  generalize hcp : (b0.toNat % 32) * 64 + b1.toNat % 64 = cp
+  have r1 : 0x80 ≤ cp := by omega
+  have r2 : cp < 0x800 := by omega
+  refine ⟨?_, r1, r2⟩
+  unfold encodeRune
+  simp only
+  rw [if_neg (by omega), if_pos r2, ofNat_of_toNat b0 _ (by omega), ofNat_of_toNat b1 _ (by omega)]
+
+theorem enc3 (b0 b1 b2 : UInt8) (h0 : 0xE0 ≤ b0.toNat ∧ b0.toNat < 0xF0)
+    (h1 : 0x80 ≤ b1.toNat ∧ b1.toNat ≤ 0xBF) (hE0 : b0.toNat = 0xE0 → 0xA0 ≤ b1.toNat)
+    (hED : b0.toNat = 0xED → b1.toNat ≤ 0x9F) (h2 : 0x80 ≤ b2.toNat ∧ b2.toNat ≤ 0xBF) :
+    encodeRune ((b0.toNat % 16) * 4096 + (b1.toNat % 64) * 64 + b2.toNat % 64) = [b0, b1, b2] ∧
+      0x800 ≤ (b0.toNat % 16) * 4096 + (b1.toNat % 64) * 64 + b2.toNat % 64 ∧
+      (b0.toNat % 16) * 4096 + (b1.toNat % 64) * 64 + b2.toNat % 64 < 0x10000 ∧
+      ¬ (0xD800 ≤ (b0.toNat % 16) * 4096 + (b1.toNat % 64) * 64 + b2.toNat % 64 ∧
+        (b0.toNat % 16) * 4096 + (b1.toNat % 64) * 64 + b2.toNat % 64 < 0xE000) := by
+  generalize hcp : (b0.toNat % 16) * 4096 + (b1.toNat % 64) * 64 + b2.toNat % 64 = cp
+  have r1 : 0x800 ≤ cp := by omega
+  have r2 : cp < 0x10000 := by omega
+  have r3 : ¬ (0xD800 ≤ cp ∧ cp < 0xE000) := by omega
+  refine ⟨?_, r1, r2, r3⟩
+  unfold encodeRune
+  simp only
+  rw [if_neg (by omega), if_neg (by omega), if_neg r3, if_pos r2, ofNat_of_toNat b0 _ (by omega),
+    ofNat_of_toNat b1 _ (by omega), ofNat_of_toNat b2 _ (by omega)]
+
+theorem enc4 (b0 b1 b2 b3 : UInt8) (h0 : 0xF0 ≤ b0.toNat ∧ b0.toNat < 0xF5)
+    (h1 : 0x80 ≤ b1.toNat ∧ b1.toNat ≤ 0xBF) (hF0 : b0.toNat = 0xF0 → 0x90 ≤ b1.toNat)
+    (hF4 : b0.toNat = 0xF4 → b1.toNat ≤ 0x8F) (h2 : 0x80 ≤ b2.toNat ∧ b2.toNat ≤ 0xBF)
+    (h3 : 0x80 ≤ b3.toNat ∧ b3.toNat ≤ 0xBF) :
+    encodeRune ((b0.toNat % 8) * 262144 + (b1.toNat % 64) * 4096 + (b2.toNat % 64) * 64 +
+      b3.toNat % 64) = [b0, b1, b2, b3] ∧
+      0x10000 ≤ (b0.toNat % 8) * 262144 + (b1.toNat % 64) * 4096 + (b2.toNat % 64) * 64 +
+        b3.toNat % 64 ∧
+      (b0.toNat % 8) * 262144 + (b1.toNat % 64) * 4096 + (b2.toNat % 64) * 64 + b3.toNat % 64 <
+        0x110000 := by
+  generalize hcp : (b0.toNat % 8) * 262144 + (b1.toNat % 64) * 4096 + (b2.toNat % 64) * 64 +
+    b3.toNat % 64 = cp
+  have r1 : 0x10000 ≤ cp := by omega
+  have r2 : cp < 0x110000 := by omega
+  refine ⟨?_, r1, r2⟩
+  unfold encodeRune
+  simp only
+  rw [if_neg (by omega), if_neg (by omega), if_neg (by omega), if_neg (by omega), if_pos r2,
+    ofNat_of_toNat b0 _ (by omega), ofNat_of_toNat b1 _ (by omega),
+    ofNat_of_toNat b2 _ (by omega), ofNat_of_toNat b3 _ (by omega)]
+
+/-- what `next` stores for a character is the encoding of the code point it reports -/
+def StoredOK (bs : Bytes) : Prop :=
+  validScalar (decodeRune bs).1 ∧ 32 ≤ (decodeRune bs).1 ∧ (decodeRune bs).1 ≠ 127 ∧
+    (if (decodeRune bs).1 = 0xFFFD ∧ (decodeRune bs).2 = 1 then replacementChar
+      else bs.take (decodeRune bs).2) = encodeRune (decodeRune bs).1
+
+theorem storedOK_bad {bs : Bytes} (h : decodeRune bs = (0xFFFD, 1)) : StoredOK bs := by
+  unfold StoredOK
+  rw [h]
+  refine ⟨by decide, by decide, by decide, ?_⟩
+  rw [if_pos ⟨rfl, rfl⟩]; decide
+
+theorem secondOk_elim {l b : UInt8} (h : secondOk l b = true) :
+    (0x80 ≤ b.toNat ∧ b.toNat ≤ 0xBF) ∧ (l.toNat = 0xE0 → 0xA0 ≤ b.toNat) ∧
+    (l.toNat = 0xED → b.toNat ≤ 0x9F) ∧ (l.toNat = 0xF0 → 0x90 ≤ b.toNat) ∧
+    (l.toNat = 0xF4 → b.toNat ≤ 0x8F) := by
+  rw [secondOk_iff] at h
+  repeat' split at h
+  all_goals omega
+
+theorem storedOK (b0 : UInt8) (rest : Bytes) (hp : isPrintableByte b0 = true) :
+    StoredOK (b0 :: rest) := by
+  have hpr : 32 ≤ b0.toNat ∧ b0.toNat ≠ 127 := by
+    simp only [isPrintableByte, Bool.and_eq_true, decide_eq_true_eq, bne_iff_ne, ne_eq,
+      ge_iff_le, UInt8.le_iff_toNat_le, ← UInt8.toNat_inj] at hp
+    exact hp
+  have hl := leadLen_eq b0
+  by_cases c1 : b0.toNat < 0x80
+  · -- one byte
+    have hd : decodeRune (b0 :: rest) = (b0.toNat, 1) := decodeRune_1 b0 rest c1
+    unfold StoredOK
+    rw [hd]
+    refine ⟨Or.inl (by omega), hpr.1, hpr.2, ?_⟩
+    simp only
+    rw [if_neg (by omega), enc1 b0 c1]; rfl
+  · rw [if_neg c1] at hl
+    by_cases c2 : b0.toNat < 0xC2
+    · rw [if_pos c2] at hl
+      exact storedOK_bad (by simp [decodeRune, hl])
+    · rw [if_neg c2] at hl
+      by_cases c3 : b0.toNat < 0xE0
+      · -- two bytes
+        rw [if_pos c3] at hl
+        cases rest with
+        | nil => exact storedOK_bad (by simp [decodeRune, hl])
+        | cons b1 r1 =>
+          cases hs : secondOk b0 b1 with
+          | false => exact storedOK_bad (by simp [decodeRune, hl, hs])
+          | true =>
+            obtain ⟨s1, _⟩ := secondOk_elim hs
+            obtain ⟨e, q1, q2⟩ := enc2 b0 b1 ⟨by omega, c3⟩ s1
+            have hd : decodeRune (b0 :: b1 :: r1) = ((b0.toNat % 32) * 64 + b1.toNat % 64, 2) := by
+              simp [decodeRune, hl, hs]
+            unfold StoredOK
+            rw [hd]
+            refine ⟨Or.inl (by omega), by omega, by omega, ?_⟩
+            simp only
+            rw [if_neg (by omega), e]; rfl
+      · rw [if_neg c3] at hl
+        by_cases c4 : b0.toNat < 0xF0
+        · -- three bytes
+          rw [if_pos c4] at hl
+          match rest with
+          | [] => exact storedOK_bad (by simp [decodeRune, hl])
+          | [b1] => exact storedOK_bad (by simp [decodeRune, hl])
+          | b1 :: b2 :: r2 =>
+            cases hs : (secondOk b0 b1 && isCont b2) with
+            | false => exact storedOK_bad (by simp [decodeRune, hl, hs])
+            | true =>
+              rw [Bool.and_eq_true] at hs
+              obtain ⟨s1, s2, s3, _, _⟩ := secondOk_elim hs.1
+              have s4 := (isCont_iff b2).1 hs.2
+              obtain ⟨e, q1, q2, q3⟩ := enc3 b0 b1 b2 ⟨by omega, c4⟩ s1 s2 s3 s4
+              have hd : decodeRune (b0 :: b1 :: b2 :: r2) =
+                  ((b0.toNat % 16) * 4096 + (b1.toNat % 64) * 64 + b2.toNat % 64, 3) := by
+                simp [decodeRune, hl, hs.1, hs.2]
+              unfold StoredOK
+              rw [hd]
+              refine ⟨by unfold validScalar; omega, by omega, by omega, ?_⟩
+              simp only
+              rw [if_neg (by omega), e]; rfl
+        · rw [if_neg c4] at hl
+          by_cases c5 : b0.toNat < 0xF5
+          · -- four bytes
+            rw [if_pos c5] at hl
+            match rest with
+            | [] => exact storedOK_bad (by simp [decodeRune, hl])
+            | [b1] => exact storedOK_bad (by simp [decodeRune, hl])
+            | [b1, b2] => exact storedOK_bad (by simp [decodeRune, hl])
+            | b1 :: b2 :: b3 :: r3 =>
+              cases hs : (secondOk b0 b1 && isCont b2 && isCont b3) with
+              | false => exact storedOK_bad (by simp [decodeRune, hl, hs])
+              | true =>
+                rw [Bool.and_eq_true, Bool.and_eq_true] at hs
+                obtain ⟨s1, _, _, s2, s3⟩ := secondOk_elim hs.1.1
+                have s4 := (isCont_iff b2).1 hs.1.2
+                have s5 := (isCont_iff b3).1 hs.2
+                obtain ⟨e, q1, q2⟩ := enc4 b0 b1 b2 b3 ⟨by omega, c5⟩ s1 s2 s3 s4 s5
+                have hd : decodeRune (b0 :: b1 :: b2 :: b3 :: r3) =
+                    ((b0.toNat % 8) * 262144 + (b1.toNat % 64) * 4096 + (b2.toNat % 64) * 64 +
+                      b3.toNat % 64, 4) := by
+                  simp [decodeRune, hl, hs.1.1, hs.1.2, hs.2]
+                unfold StoredOK
+                rw [hd]
+                refine ⟨by unfold validScalar; omega, by omega, by omega, ?_⟩
+                simp only
+                rw [if_neg (by omega), e]; rfl
+          · rw [if_neg c5] at hl
+            exact storedOK_bad (by simp [decodeRune, hl])
+
+theorem parseCSI_body_tokOK (body : Bytes) (pre : UInt8) (n1 : Nat) (t : Tok) (n : Nat)
+    (h : (match csiParams body {} n1 with
+      | none => Step.need
+      | some (p, body2, n2) =>
+        match csiSkipParams body2 true n2 with
+        | none => .need
+        | some (clean, body3, n3) =>
+          match csiInter body3 clean n3 with
+          | none => .need
+          | some (clean', fin, n4) => .tok (.csi pre p.finish clean' fin) n4) = .tok t n) :
+    TokOK t := by
+  split at h
+  · cases h
+  · split at h
+    · cases h
+    · split at h
+      · cases h
+      · simp only [Step.tok.injEq] at h
+        obtain ⟨rfl, _⟩ := h
+        trivial
+
+theorem parseCSI_tokOK (bs : Bytes) (n0 : Nat) (t : Tok) (n : Nat)
+    (h : parseCSI bs n0 = .tok t n) : TokOK t := by
+  cases bs with
+  | nil => simp [parseCSI] at h
+  | cons b rest =>
+    simp only [parseCSI] at h
+    by_cases hp : (b = 0x3f || b = 0x3e || b = 0x3c || b = 0x3d) = true
+    · simp only [hp, if_true] at h
+      exact parseCSI_body_tokOK _ _ _ _ _ h
+    · simp only [hp] at h
+      exact parseCSI_body_tokOK _ _ _ _ _ h
+
+theorem parseOSC_tokOK (bs : Bytes) (n0 : Nat) (t : Tok) (n : Nat)
+    (h : parseOSC bs n0 = .tok t n) : TokOK t := by
+  unfold parseOSC at h
+  repeat' split at h
+  all_goals first
+    | (simp only [Step.tok.injEq] at h; obtain ⟨rfl, _⟩ := h; trivial)
+    | cases h
+
+theorem parseDCS_tokOK (bs : Bytes) (n0 : Nat) (t : Tok) (n : Nat)
+    (h : parseDCS bs n0 = .tok t n) : TokOK t := by
+  unfold parseDCS at h
+  split at h
+  · cases h
+  · simp only [Step.tok.injEq] at h
+    obtain ⟨rfl, _⟩ := h
+    trivial
+
+theorem parseEsc_tokOK (bs : Bytes) (tok : Tok) (n : Nat) (h : parseEsc bs = .tok tok n) :
+    TokOK tok := by
+  cases bs with
+  | nil => simp [parseEsc] at h
+  | cons b rest =>
+    simp only [parseEsc] at h
+    split at h
+    · exact parseCSI_tokOK _ _ _ _ h
+    · split at h
+      · exact parseOSC_tokOK _ _ _ _ h
+      · split at h
+        · exact parseDCS_tokOK _ _ _ _ h
+        · split at h
+          · cases h
+          · simp only [Step.tok.injEq] at h
+            obtain ⟨rfl, _⟩ := h
+            trivial
+
+end Lemmas
+open Lemmas
+
+/-- **every token the tokeniser yields satisfies `TokOK`**: a text token carries the UTF-8
+    encoding of the (valid, printable) code point it reports — for a valid character the bytes
+    read (decode then encode is the identity on well-formed UTF-8: no overlong forms, no
+    surrogates, nothing above U+10FFFF), for an invalid byte U+FFFD with its encoding -/
+theorem next_tokOK (bs : Bytes) (tok : Tok) (n : Nat) (h : next bs = .tok tok n) : TokOK tok := by
+  unfold next at h
+  split at h
+  · cases h
+  · next b rest =>
+    split at h
+    · next hp =>
+      split at h
+      · have hs := storedOK b rest hp
+        unfold StoredOK at hs
+        simp only at h
+        cases h
+        exact hs
+      · cases h
+    · split at h
+      · exact parseEsc_tokOK _ _ _ h
+      · cases h; trivial
+
+namespace Lemmas
+
+theorem toksFuel_tokOK : ∀ (fuel : Nat) (bs : Bytes), ∀ tok ∈ TM.C10.toksFuel fuel bs, TokOK tok := by
+  intro fuel
+  induction fuel with
+  | zero => intro bs tok h; simp [TM.C10.toksFuel] at h
+  | succ fuel ih =>
+    intro bs tok h
+    unfold TM.C10.toksFuel at h
+    cases hn : next bs with
+    | need => rw [hn] at h; simp at h
+    | tok tk n =>
+      rw [hn] at h
+      simp only [List.mem_cons] at h
+      rcases h with rfl | h
+      · exact next_tokOK bs _ n hn
+      · exact ih _ tok h
+
+end Lemmas
+open Lemmas
+
+/-- **The unconditional capstone.** For every byte string `bs`, every size
+    `1 ≤ w, h ≤ paramMax`, either policy of the inner and of the outer terminal, every region `R`
+    that is not empty after clamping, every width function that gives the space and U+FFFD at most
+    one cell (and, when the inner terminal is a span buffer, no character more than two cells —
+    `C02.WidthOK`, without which the model terminal does not even keep its rows well formed):
+    the inner terminal `t0 = Term.init pol w h` reads `bs`; a mirror is attached to `R` on a FRESH
+    outer terminal of the same size and is told, after every token, every damage region the model
+    terminal announces for it; the outer terminal reads everything the mirror writes. Then the
+    outer terminal shows the inner terminal's final active screen `(run cw t0 bs).1.scr` inside
+    `R` (and fits it, and has no character straddling an edge of `R`). No hypothesis about
+    intermediate states remains: `InnerAlong` is discharged by `innerOK_init`, `innerOK_apply`
+    and `next_tokOK`. -/
+theorem mirror_follows_stream (cw : Nat → Nat) (pol polO : WidePolicy) (w h : Nat) (R : MRegion)
+    (m : Mirror) (bs : Bytes) (hw : 1 ≤ w) (hh : 1 ≤ h) (hW : w ≤ paramMax) (hH : h ≤ paramMax)
+    (hne : (R.clamp w h).isEmpty = false) (hsp : cw 32 ≤ 1) (hrep : cw 0xFFFD ≤ 1)
+    (hcw : WidthOK pol cw) (hcx : m.cx < w) (hcy : m.cy < h) :
+    let t0 := Term.init pol w h
+    let m' := (m.step t0.scr (.attach R)).1
+    let o0 := (run cw (Term.init polO w h) (m.step t0.scr (.attach R)).2).1
+    let o' := mirrorFollow cw m' t0 o0 (TM.C10.toksOf bs)
+    SyncedRegion o' (run cw t0 bs).1.scr R ∧ OuterGrid o' (run cw t0 bs).1.scr ∧
+      NoStraddle o' (run cw t0 bs).1.scr R := by
+  intro t0 m' o0 o'
+  have hrun : (run cw t0 bs).1 = TM.C10.stateAfter cw t0 (TM.C10.toksOf bs) := by
+    unfold run TM.C10.toksOf; exact TM.C10.runFuel_state cw _ t0 bs []
+  rw [hrun]
+  have hal : InnerAlong cw t0 (TM.C10.toksOf bs) :=
+    innerAlong_of cw hsp hrep _ t0 (innerOK_init cw pol w h hw hh hW hH hsp) hcw
+      (toksFuel_tokOK _ bs)
+  exact attach_then_follow cw polO m t0 R (TM.C10.toksOf bs) hne hal hsp hcx hcy
+
 /-! ## non-vacuity -/
 
 namespace Examples
@@ -3568,6 +4631,29 @@ example (pol : WidePolicy) :
     ⟨tIn_ok pol, tIn_lf_ok pol, tIn_lf_ok pol⟩ (by decide) (by cases pol <;> decide)
     (by cases pol <;> decide)).1
 
+/-! ### Part 9 -/
+
+theorem cw_widthOK (pol : WidePolicy) : WidthOK pol cw := fun _ cp => by
+  unfold TM.C11.Examples.cw; split <;> omega
+
+/-- what the tokeniser yields for `世` and for an invalid byte -/
+example : next [0xE4, 0xB8, 0x96, 0x41] = .tok (.text [0xE4, 0xB8, 0x96] 0x4E16) 3 ∧
+    next [0xFF, 0x41] = .tok (.text replacementChar 0xFFFD) 1 := by decide
+
+/-- the hypotheses of `mirror_follows_stream` hold: a span-buffer inner terminal reads
+    `A 世 ESC[2;1H B <invalid byte> LF`, the mirror shows `[1,5) × [0,2)` on a grid-buffer outer
+    terminal -/
+example :
+    let bs : Bytes := [0x41, 0xE4, 0xB8, 0x96, 0x1b, 0x5b, 0x32, 0x3b, 0x31, 0x48, 0x42, 0xFF, 0x0a]
+    let t0 := Term.init .keep 6 2
+    SyncedRegion
+      (mirrorFollow cw (({} : Mirror).step t0.scr (.attach ⟨1, 0, 5, 2⟩)).1 t0
+        (run cw (Term.init .blank 6 2) (({} : Mirror).step t0.scr (.attach ⟨1, 0, 5, 2⟩)).2).1
+        (TM.C10.toksOf bs))
+      (run cw t0 bs).1.scr ⟨1, 0, 5, 2⟩ :=
+  (mirror_follows_stream cw .keep .blank 6 2 ⟨1, 0, 5, 2⟩ {} _ (by decide) (by decide) (by decide)
+    (by decide) (by decide) (by decide) (by decide) (cw_widthOK _) (by decide) (by decide)).1
+
 end Examples
 
 end TM.C11M
@@ -3612,3 +4698,7 @@ end TM.C11M
 #print axioms TM.C11M.cursorOp_spec
 #print axioms TM.C11M.session_invariant
 #print axioms TM.C11M.session_cursor
+#print axioms TM.C11M.innerOK_apply
+#print axioms TM.C11M.next_tokOK
+#print axioms TM.C11M.innerOK_init
+#print axioms TM.C11M.mirror_follows_stream
